@@ -1,4 +1,4 @@
 CONSTANTS
-  Contexts = {"module", "fn", "arrow_expr"}
+  Contexts = {"module", "fn", "arrow_expr", "loop_first", "calls_first", "param_first"}
 INIT Init
 NEXT Next
